@@ -71,6 +71,8 @@ CODES["C02"].update({
     "2:251": "a state became inactive for a Require that was missing only in the first resolver pass",
 })
 CODES["C03"].update({
+    **{"2:%d" % (380 + i): "a %s call on a backing-off machine was not Canceled or moved something" % n for i, n in enumerate(["Add", "Remove", "Set", "Toggle", "AddErr", "CanAdd", "CanRemove", "EvAdd", "EvRemove"])},
+    **{"2:%d" % (390 + i): "a %s call on a disposed machine was not Canceled" % n for i, n in enumerate(["Add", "Remove", "Set", "Toggle", "AddErr", "CanAdd", "CanRemove", "EvAdd", "EvRemove"])},
     "2:31": "a call returned Canceled but ticks / states / queue tick moved",
     "2:32": "Add/Set returned Executed but a called state is not active (or the transition was not accepted)",
     "2:33": "Remove returned Executed but a called state is still active",
